@@ -638,5 +638,17 @@ def rule_parser_defaults(ctx):
             "a formula annotated without a direction gets the default direction (no other direction is written into it by the parser): %s" % others, construct=sorted(map(repr, dirs))[:2])
 
 
-RULES = [rule_parser_defaults, rule_translation, rule_routing, rule_assembled, rule_fresh_rename, rule_definitions_survive_simplification, rule_break_preserves_meaning, rule_admission_shared,
-         rule_placeholders_reach_every_term]
+def rule_printed_as_meant_shared(ctx):
+    """the obligations reach the prover as TPTP text: integer comparisons go through the integer relation table, which must print each
+    relation as itself (C06), and the order axioms over the symbolic constants must state the lexicographic order, consecutive and the
+    right way round (C12) - else assumptions such as `n >= 0` or comparisons between constants mean something else than in the programs"""
+    from . import c06, c12
+    sub = type(ctx)(ctx.prop, ctx.tier, ctx.facts)
+    c06.rule_tokens(sub)
+    ctx.obls.extend(o for o in sub.obls if o["key"].startswith("TAB-MAP:repr_"))
+    sub = type(ctx)(ctx.prop, ctx.tier, ctx.facts)
+    c12.rule_chain(sub)
+    ctx.obls.extend(sub.obls)
+
+
+RULES = [rule_parser_defaults, rule_translation, rule_routing, rule_assembled, rule_fresh_rename, rule_definitions_survive_simplification, rule_break_preserves_meaning, rule_admission_shared, rule_placeholders_reach_every_term, rule_printed_as_meant_shared]
